@@ -1,6 +1,9 @@
 ----------------------------------------- MODULE CartSymmetry_mc -----------------------------------------
 EXTENDS CartSymmetry
 Bound == TLCGet("level") <= MaxLevel
+\* states on the last level are checked but not expanded (their successors would be thrown away by Bound anyway)
+ApplyB(g) == TLCGet("level") < MaxLevel /\ g \in Gens(bc) /\ Apply(g)
+NextB == \E g \in {"R90", "MX", "MY"} : ApplyB(g)
 View  == vars
 Emit  == PrintT(ToJson([lvl |-> TLCGet("level"), from |-> Vars, act |-> [n |-> act'.n, g |-> act'.g],
                         to |-> [th |-> th', bc |-> bc', c |-> c'],
